@@ -245,7 +245,7 @@ func genServe(r *hx.Rand, i int) interface{} {
 				rt.Opts = append(rt.Opts, [2]string{k, v})
 			}
 		}
-		rt.Dst = r.Pick([]string{"http://UPSTREAM/", "http://UPSTREAM/", "http://UPSTREAM/?t=1"})
+		rt.Dst = r.Pick([]string{"http://UPSTREAM/", "http://UPSTREAM/", "http://UPSTREAM/?t=1", "http://UPSTREAM/base%2Fx?t=1&u", "HTTP://UPSTREAM"})
 		switch r.Intn(6) {
 		case 0: // redirect route (one of them points back at requests for a.example)
 			rt.Dst = r.Pick([]string{"https://r.example/$path", "http://a.example/$path", "http://r.example/fixed?k=v", "https://$host/$path"})
@@ -282,6 +282,17 @@ func genServe(r *hx.Rand, i int) interface{} {
 	}
 	in.Host = r.Pick([]string{"a.example", "a.example", "A.EXAMPLE:80", "b.example", "c.example", "a.example:8080"})
 	in.Path = r.Pick([]string{"/", "/s", "/s/a%2Fb", "/s/a/x", "/deny/x", "/auth", "/go/there", "/go%2Fx", "/x", "/%73/y"})
+	// most requests are aimed at one of the routes (host in a spelling that still matches, path below the route's)
+	if len(in.Routes) > 0 && r.Chance(2, 3) {
+		rt := in.Routes[r.Intn(len(in.Routes))]
+		if rt.Host != "" {
+			in.Host = r.Pick([]string{rt.Host, rt.Host, strings.ToUpper(rt.Host), rt.Host + ":80"})
+		}
+		in.Path = strings.TrimSuffix(rt.Path, "/") + r.Pick([]string{"", "/", "/a%2Fb", "/x/y", "%2Fx", "/%73"})
+		if !strings.HasPrefix(in.Path, "/") {
+			in.Path = "/" + in.Path
+		}
+	}
 	in.Query = r.Pick([]string{"", "", "x=1", "&"})
 	in.HasQ = in.Query != ""
 	if r.Chance(1, 3) {
@@ -291,7 +302,7 @@ func genServe(r *hx.Rand, i int) interface{} {
 		in.Hdr = append(in.Hdr, [2]string{"X-Forwarded-Proto", r.Pick([]string{"https", "http"})})
 	}
 	if r.Chance(1, 2) {
-		in.Cred = [][]string{{"u", "p"}, {"u", "wrong"}, {"v", "q"}, {"w", "p"}}[r.Intn(4)]
+		in.Cred = [][]string{{"u", "p"}, {"u", "p"}, {"u", "wrong"}, {"v", "q"}, {"w", "p"}, {"u", "P"}}[r.Intn(6)]
 	}
 	in.Authz = authzOf(in.Cred)
 	// end-to-end headers of the client's own: they must arrive whatever gates the route carries
